@@ -334,6 +334,37 @@ func roundTripEvent(id string, step string, seq gts.Sequence, emit func(J)) {
 	emit(ev)
 }
 
+// featuresInside: every feature location lies inside the residues (a CONTIG-only record that received a few
+// residues keeps features that point far outside them).
+func featuresInside(seq gts.Sequence) bool {
+	n := gts.Len(seq)
+	for _, f := range seq.Features() {
+		if f.Loc == nil {
+			return false
+		}
+		for _, s := range regionSegments(f.Loc.Region()) {
+			if s[0] < 0 || s[1] < 0 || s[0] > n || s[1] > n {
+				return false
+			}
+		}
+	}
+	return true
+}
+
+func regionSegments(r gts.Region) []gts.Segment {
+	switch v := r.(type) {
+	case gts.Segment:
+		return []gts.Segment{v}
+	case gts.Regions:
+		var out []gts.Segment
+		for _, x := range v {
+			out = append(out, regionSegments(x)...)
+		}
+		return out
+	}
+	return nil
+}
+
 // runCorpusCase applies a TLC-generated pipeline (arguments in eighths of the
 // current length) to a corpus record and round-trips after every step.
 func runCorpusCase(c J, emit func(J)) {
@@ -358,8 +389,15 @@ func runCorpusCase(c J, emit func(J)) {
 		ok := func() (ok bool) {
 			defer func() {
 				if e := recover(); e != nil {
-					emit(J{"ev": "gb", "case": id, "step": step, "teach": []interface{}{}, "wpanic": "op panic: " + fmt.Sprint(e), "rpanic": "", "rerr": "", "fixed": false,
-						"written": []interface{}{}, "read": []interface{}{}})
+					// an operation that panics wrote no record: this is a matter for the property of that
+					// operation, not for C01 - unless the record it was given was well-formed (every feature
+					// inside the residues), in which case the pipeline lost a writable record
+					w := "op panic: " + fmt.Sprint(e)
+					if !featuresInside(cur) {
+						w = ""
+					}
+					emit(J{"ev": "gb", "case": id, "step": step, "teach": []interface{}{}, "wpanic": w, "rpanic": "", "rerr": "", "fixed": true,
+						"written": []interface{}{}, "read": []interface{}{}, "oppanic": fmt.Sprint(e)})
 					ok = false
 				}
 			}()
